@@ -40,7 +40,7 @@ ASSUMPTIONS = [
 
 
 def GATES(tier):
-    return [("ops_judged", 500), ("walks", 500), ("attrs_checked", 2000), ("single_fault_judged", 100), ("single_fault_rejected", 50), ("bad_default_routes", 20), ("bounded_outside_values_judged", 300),
+    return [("ops_judged", 500), ("walks", 500), ("attrs_checked", 2000), ("single_fault_judged", 100), ("single_fault_rejected", 50), ("bad_default_routes", 20), ("bounded_outside_values_judged", 300), ("tuple_bad_values_judged", 100),
             ("equal_value_other_type_cases", 10), ("transform_result_sweep", 200), ("slot:dictkey", 5), ("slot:elem", 20), ("slot:leafattr", 10), ("slot:attr", 50)]
 
 
@@ -223,9 +223,81 @@ def directed_bounded_values(ctx):
                                       features={"phase": "bounded_value", "route": label, "value": vname, "type": tname, "lazy": not boot}, case=["bounded_value", tname, label, vname, boot])
 
 
+TUPLE_SRC = """
+from typing import Dict, List, Tuple
+from spec_classes import spec_class
+
+@spec_class(bootstrap={boot})
+class T:
+    pair: Tuple[int, str] = (1, "a")
+    pairs: List[Tuple[int, str]] = [(1, "a")]
+    many: Tuple[int, ...] = (1, 2)
+"""
+
+
+def directed_tuple_values(ctx):
+    """Fixed-length and variadic tuple annotations as attribute and as list element: tuples that are too short, too long,
+    permuted or of the wrong element type (and a list in place of the tuple) must be refused on every route or leave a
+    conforming state; the oracle is the annotation spelt out with isinstance/len."""
+    def pair_ok(v):
+        return type(v) is tuple and len(v) == 2 and type(v[0]) is int and type(v[1]) is str
+
+    def many_ok(v):
+        return type(v) is tuple and all(type(x) is int for x in v)
+
+    bad_pairs = [("()", ()), ("(1,)", (1,)), ("(1, 'a', 2)", (1, "a", 2)), ("('a', 1)", ("a", 1)), ("(1, 2)", (1, 2)), ("[1, 'a']", [1, "a"]), ("(1, 'a', 'b')", (1, "a", "b"))]
+    bad_many = [("(1, 'a')", (1, "a")), ("('a',)", ("a",)), ("[1, 2]", [1, 2])]
+
+    def set_(o, n, v):
+        setattr(o, n, v)
+        return o
+
+    routes = [
+        ("T(pair=v)", "pair", lambda T, v: T(pair=v)),
+        ("x.pair = v", "pair", lambda T, v: set_(T(), "pair", v)),
+        ("x.with_pair(v)", "pair", lambda T, v: T().with_pair(v)),
+        ("x.with_pair(v, _inplace=True)", "pair", lambda T, v: T().with_pair(v, _inplace=True)),
+        ("x.transform_pair(-> v)", "pair", lambda T, v: T().transform_pair(lambda p: v)),
+        ("x.update(pair=v)", "pair", lambda T, v: T().update(pair=v)),
+        ("T(pairs=[v])", "pair", lambda T, v: T(pairs=[v])),
+        ("x.with_pairs([(2, 'b'), v])", "pair", lambda T, v: T().with_pairs([(2, "b"), v])),
+        ("T(many=v)", "many", lambda T, v: T(many=v)),
+        ("x.many = v", "many", lambda T, v: set_(T(), "many", v)),
+        ("x.with_many(v)", "many", lambda T, v: T().with_many(v)),
+        ("x.transform_many(-> v)", "many", lambda T, v: T().transform_many(lambda p: v)),
+    ]
+    for boot in (True, False):
+        T = cg.exec_module(TUPLE_SRC.format(boot=boot), prefix="verif_c03t").__dict__["T"]
+        for label, which, fn in routes:
+            for vname, v in (bad_pairs + [("(2, 'b')", (2, "b"))] if which == "pair" else bad_many + [("()", ()), ("(3,)", (3,))]):
+                good = (pair_ok if which == "pair" else many_ok)(v)
+                ctx.count("ops_judged")
+                ctx.count("tuple_value_routes")
+                try:
+                    res, outcome = fn(T, v), "returned"
+                except (TypeError, ValueError):
+                    res, outcome = None, "rejected"
+                except Exception as e:
+                    res, outcome = None, f"raised {type(e).__name__}"
+                ctx.sig("tuple_value", label, vname, outcome)
+                feats = {"phase": "tuple_value", "route": label, "value": vname, "lazy": not boot}
+                if good:
+                    if outcome != "returned":
+                        ctx.violation("stored_value_conforms", f"[directed] {label} with v = {vname} was {outcome}: a conforming value must be accepted", features=feats, case=["tuple_value", label, vname, boot])
+                    continue
+                ctx.count("tuple_bad_values_judged")
+                if res is None:
+                    continue
+                d = res.__dict__
+                bad = ([("pair", d["pair"])] if "pair" in d and not pair_ok(d["pair"]) else []) + [(f"pairs[{i}]", w) for i, w in enumerate(d.get("pairs", [])) if not pair_ok(w)] + ([("many", d["many"])] if "many" in d and not many_ok(d["many"]) else [])
+                if bad:
+                    ctx.violation("stored_value_conforms", f"[directed] {label} with v = {vname} {outcome}: T.{bad[0][0]} (pair: Tuple[int, str], pairs: List[Tuple[int, str]], many: Tuple[int, ...]) now holds {bad[0][1]!r}", features=feats, case=["tuple_value", label, vname, boot])
+
+
 def run(ctx, params):
     if params.get("directed"):
         directed_bad_defaults(ctx)
+        directed_tuple_values(ctx)
         return directed_bounded_values(ctx)
     rng = ctx.rng
     for ci in range(params["cases"]):
